@@ -201,6 +201,9 @@ fn fp_base(kind: &str) -> usize {
         "pair" => size_of::<(String, Vec<u32>)>() + 12,
         "boxed" => 8 + size_of::<String>(),
         "rec" => size_of::<corpus::gen::Rec>(),
+        "vec_box" => size_of::<Vec<Box<String>>>() + 8 + size_of::<String>(),
+        "opt_box" => size_of::<Option<Box<String>>>() + size_of::<String>(),
+        "res_vec" => size_of::<Result<Vec<String>, String>>() + size_of::<String>(),
         _ => 8,
     }
 }
